@@ -85,7 +85,7 @@ def make_stub_channel_class():
 
     def finish_open(self, ok):
       ars, self.open_ars = self.open_ars, []
-      if ok:
+      if ok and self.close_calls == 0:
         self._state = C.ChannelState.Open
       else:
         self._state = C.ChannelState.Closed
